@@ -724,6 +724,15 @@ impl Serialize for Filter {
                 }
             }
         }
+        if let Some((verb_mstp_mtin, mask)) = &self.verb_mstp_mtin {
+            if *mask == (0x07u8 << 1) {
+                // only mstp is compared: from_json derives this mask from "mstp"
+                state.serialize_field("mstp", &((verb_mstp_mtin >> 1) & 0x07u8))?;
+            } else {
+                // from_json derives the mask (0x0f if mtin is 0 else 0xff) from the value
+                state.serialize_field("verb_mstp_mtin", verb_mstp_mtin)?;
+            }
+        }
         if let Some(s) = &self.payload_regex {
             if self.ignore_case_payload {
                 let s = s.as_str().replacen("(?i)", "", 1);
